@@ -233,6 +233,7 @@ type remote struct {
 	gated              bool     // the peer's main loop parks before every select and takes the arm the harness names
 	gate               chan int
 	gateReply          chan bool
+	sentWhileGated     map[string]bool // requests sent while the peer was gated (it reads them at some later point of its own choosing)
 	crossedUp          []rc.Msg // cancelled requests whose Piece storrent had already committed to its writer
 	sentInterested     bool
 	served             int
@@ -1124,6 +1125,13 @@ func (r *remote) onFrame(m rc.Msg, raw []byte) {
 		r.gotOther = true
 		r.unchokedByStorrent = false
 		if !r.cfg.Fast {
+			// requests sent to a gated peer may be read by it only after it has
+			// choked and unchoked again: to storrent they are then fresh requests
+			for _, q := range r.pendingUp {
+				if r.sentWhileGated[fmt.Sprintf("%d/%d/%d", q.Index, q.Begin, q.Length)] {
+					r.crossedUp = append(r.crossedUp, q)
+				}
+			}
 			r.pendingUp = nil
 		}
 	case rc.Piece:
@@ -1477,6 +1485,12 @@ func (w *World) apply(tr string) bool {
 		r.send(m)
 		if r.unchokedByStorrent {
 			r.pendingUp = append(r.pendingUp, m)
+		}
+		if r.gated {
+			if r.sentWhileGated == nil {
+				r.sentWhileGated = map[string]bool{}
+			}
+			r.sentWhileGated[fmt.Sprintf("%d/%d/%d", m.Index, m.Begin, m.Length)] = true
 		}
 	case "ucancel": // cancel our oldest pending upload request
 		if r.closed || len(r.pendingUp) == 0 {
@@ -2351,6 +2365,14 @@ func (w *World) canon() string {
 		fmt.Fprintf(&sb, " ch=%v out=%v pu=%v ubs=%v si=%v adv=%v fs=%v po=%v g=%v mr=%v", r.choking, out, pu, r.unchokedByStorrent, r.sentInterested, sortedSet(r.adv), sortedSet(r.fastSet), r.pendingOut(), r.grace, r.metaReqs)
 		if r.gated {
 			sb.WriteString(" gated")
+		}
+		if len(r.sentWhileGated) > 0 {
+			var l []string
+			for k := range r.sentWhileGated {
+				l = append(l, k)
+			}
+			sort.Strings(l)
+			fmt.Fprintf(&sb, " swg=%v", l)
 		}
 		if len(r.cancelledUp)+len(r.crossedUp)+len(r.resolvedStalled) > 0 {
 			// monitor state that decides later verdicts
